@@ -204,71 +204,20 @@ class Section:
 
 # ------------------------------------------------------------------ sections
 
-def sec_time_pattern():
-    s = Section('TimePattern', 'Constants of bardolph/lib/time_pattern.py')
-    tree = parse('bardolph/lib/time_pattern.py')
-    cls = find_class(tree, 'TimePattern')
-    s.add('regexSpec', const(class_assign(cls, 'REGEX_SPEC')), comment='TimePattern.REGEX_SPEC')
-    lo, hi = range_args(class_assign(cls, 'HOURS_24'))
-    if lo != 0:
-        raise ExtractError('HOURS_24 does not start at 0')
-    s.add('hours24', hi, comment='HOURS_24 = set(range(0, N))')
-    lo, hi = range_args(class_assign(cls, 'MINUTES_60'))
-    if lo != 0:
-        raise ExtractError('MINUTES_60 does not start at 0')
-    s.add('minutes60', hi, comment='MINUTES_60 = set(range(0, N))')
-    lo, hi = for_range(find_func(cls, '_init_hour_set'))
-    if lo != 0:
-        raise ExtractError('hour loop does not start at 0')
-    s.add('hourLoopEnd', hi, comment='for hour in range(0, N) in _init_hour_set')
-    lo, hi = for_range(find_func(cls, '_init_minute_set'))
-    if lo != 0:
-        raise ExtractError('minute loop does not start at 0')
-    s.add('minuteLoopEnd', hi, comment='for minute in range(0, N) in _init_minute_set')
-    s.add('hourValidBound', compare_bound(find_func(cls, 'hours_valid'), 'int_hours'),
-          comment='0 <= int_hours < N in hours_valid')
-    s.add('minuteValidBound', compare_bound(find_func(cls, 'minutes_valid'), 'int_minutes'),
-          comment='0 <= int_minutes < N in minutes_valid')
-    s.add('hourTens', [int(c) for c in in_string(find_func(cls, 'hours_valid'), 0)],
-          comment="hours[0] in '...' for the d* form")
-    s.add('minuteTens', [int(c) for c in in_string(find_func(cls, 'minutes_valid'), 0)],
-          comment="minutes[0] in '...' for the d* form")
-
-    def live(vals):
-        sys.path.insert(0, REPO)
-        from bardolph.lib.time_pattern import TimePattern as TP
-        if TP.REGEX_SPEC != vals['regexSpec']:
-            raise ExtractError('live REGEX_SPEC differs')
-        if TP.HOURS_24 != set(range(vals['hours24'])):
-            raise ExtractError('live HOURS_24 differs')
-        if TP.MINUTES_60 != set(range(vals['minutes60'])):
-            raise ExtractError('live MINUTES_60 differs')
-        for n in range(0, 40):
-            txt = '{:d}'.format(n)
-            if TP.hours_valid(txt) != (n < vals['hourValidBound']):
-                raise ExtractError('live hours_valid({}) differs'.format(txt))
-        for n in range(0, 100):
-            txt = '{:02d}'.format(n)
-            if TP.minutes_valid(txt) != (n < vals['minuteValidBound']):
-                raise ExtractError('live minutes_valid({}) differs'.format(txt))
-        for d in range(10):
-            if TP.hours_valid('{}*'.format(d)) != (d in vals['hourTens']):
-                raise ExtractError('live hours_valid({}*) differs'.format(d))
-            if TP.minutes_valid('{}*'.format(d)) != (d in vals['minuteTens']):
-                raise ExtractError('live minutes_valid({}*) differs'.format(d))
-    return s, live
+SECTIONS = {}
 
 
-SECTIONS = {
-    'TimePattern': sec_time_pattern,
-}
-
-
-def register(name):
-    def deco(fn):
-        SECTIONS[name] = fn
-        return fn
-    return deco
+def load_sections():
+    """every tools/sections/*.py defines `section(x)` -> (Section, live_check); the Lean
+    file name / namespace is the Section's name"""
+    import importlib.util
+    d = os.path.join(HERE, 'sections')
+    for fn in sorted(os.listdir(d)):
+        if fn.endswith('.py') and not fn.startswith('_'):
+            spec = importlib.util.spec_from_file_location('section_' + fn[:-3], os.path.join(d, fn))
+            mod = importlib.util.module_from_spec(spec)
+            spec.loader.exec_module(mod)
+            SECTIONS[fn[:-3]] = mod.section
 
 
 def run(names=None, out=OUT, check_live=True):
@@ -276,11 +225,11 @@ def run(names=None, out=OUT, check_live=True):
     os.makedirs(out, exist_ok=True)
     for name in (names or sorted(SECTIONS)):
         try:
-            section, live = SECTIONS[name]()
+            section, live = SECTIONS[name](sys.modules[__name__])
             if check_live and live is not None:
                 live(section.values())
             text = section.render()
-            path = os.path.join(out, name + '.lean')
+            path = os.path.join(out, section.name + '.lean')
             old = None
             if os.path.exists(path):
                 with open(path) as f:
@@ -288,7 +237,7 @@ def run(names=None, out=OUT, check_live=True):
             if old != text:
                 with open(path, 'w') as f:
                     f.write(text)
-            report['sections'][name] = {'ok': True, 'changed': old != text,
+            report['sections'][section.name] = {'ok': True, 'changed': old != text,
                                         'values': section.values()}
         except Exception as ex:  # ExtractError, SyntaxError, ImportError ...
             report['ok'] = False
@@ -304,6 +253,7 @@ def main():
     ap.add_argument('--out', default=OUT)
     ap.add_argument('--no-live', action='store_true')
     args = ap.parse_args()
+    load_sections()
     report = run(args.section, args.out, not args.no_live)
     print(json.dumps(report, indent=1, default=str))
     sys.exit(0 if report['ok'] else 3)
